@@ -228,7 +228,8 @@ Definition leg_count (closed : bool) (t : list act) : nat :=
   end.
 
 (* windows of one place; returns (ctx, stop) *)
-Fixpoint scan_windows (v : vehicle) (t : list act) (idx : nat) (j : single) (pi : nat) (p : place) (route_cost : Z)
+(* `est` is the activity-level estimate of the (single) objective layer: cost_estimate_activity or leg_estimate dist/dur *)
+Fixpoint scan_windows (est : list act -> nat -> act -> Z) (v : vehicle) (t : list act) (idx : nat) (j : single) (pi : nat) (p : place) (route_cost : Z)
          (ws : list (Z * Z)) (c : sctx) : sctx * bool :=
   match ws with
   | [] => (c, false)
@@ -238,46 +239,46 @@ Fixpoint scan_windows (v : vehicle) (t : list act) (idx : nat) (j : single) (pi 
     match eval_activity v t idx target with
     | Some (code, stopped) =>
       let c' := mkSctx (Some (code, stopped)) (sc_index c) (sc_cost c) (sc_place c) in
-      if stopped then (c', true) else scan_windows v t idx j pi p route_cost ws' c'
+      if stopped then (c', true) else scan_windows est v t idx j pi p route_cost ws' c'
     | None =>
-      let costs := cost_estimate_activity v t idx target + route_cost in
+      let costs := est t idx target + route_cost in
       let better := match sc_cost c with Some o => costs <? o | None => true end in   (* vs InsertionCost::max_value *)
       let c' := if better
                 then mkSctx None idx (Some costs) (Some (pi, a_loc target, a_svc target, a_tws target, a_twe target))
                 else c in
-      scan_windows v t idx j pi p route_cost ws' c'
+      scan_windows est v t idx j pi p route_cost ws' c'
     end
   end.
 
-Fixpoint scan_places (v : vehicle) (t : list act) (idx : nat) (j : single) (pi : nat) (route_cost : Z)
+Fixpoint scan_places (est : list act -> nat -> act -> Z) (v : vehicle) (t : list act) (idx : nat) (j : single) (pi : nat) (route_cost : Z)
          (ps : list place) (c : sctx) : sctx * bool :=
   match ps with
   | [] => (c, false)
   | p :: ps' =>
-    let '(c', stop) := scan_windows v t idx j pi p route_cost (p_tws p) c in
-    if stop then (c', true) else scan_places v t idx j (S pi) route_cost ps' c'
+    let '(c', stop) := scan_windows est v t idx j pi p route_cost (p_tws p) c in
+    if stop then (c', true) else scan_places est v t idx j (S pi) route_cost ps' c'
   end.
 
-Definition scan_leg (v : vehicle) (t : list act) (idx : nat) (j : single) (route_cost : Z) (c : sctx) : sctx * bool :=
-  scan_places v t idx j 0 route_cost (s_places j) c.
+Definition scan_leg (est : list act -> nat -> act -> Z) (v : vehicle) (t : list act) (idx : nat) (j : single) (route_cost : Z) (c : sctx) : sctx * bool :=
+  scan_places est v t idx j 0 route_cost (s_places j) c.
 
 (* try_fold over legs idx, idx+1, ... (n legs left) *)
-Fixpoint scan_legs (v : vehicle) (t : list act) (j : single) (route_cost : Z) (idx n : nat) (c : sctx) : sctx :=
+Fixpoint scan_legs (est : list act -> nat -> act -> Z) (v : vehicle) (t : list act) (j : single) (route_cost : Z) (idx n : nat) (c : sctx) : sctx :=
   match n with
   | O => c
-  | S n' => let '(c', stop) := scan_leg v t idx j route_cost c in
-            if stop then c' else scan_legs v t j route_cost (S idx) n' c'
+  | S n' => let '(c', stop) := scan_leg est v t idx j route_cost c in
+            if stop then c' else scan_legs est v t j route_cost (S idx) n' c'
   end.
 
 Inductive position := PAny | PConcrete (i : nat) | PLast.
 
-Definition analyze (v : vehicle) (closed : bool) (t : list act) (j : single) (pos : position) (route_cost : Z) : sctx :=
+Definition analyze (est : list act -> nat -> act -> Z) (v : vehicle) (closed : bool) (t : list act) (j : single) (pos : position) (route_cost : Z) : sctx :=
   let init := mkSctx None 0 None None in
   let n := leg_count closed t in
   match pos with
-  | PAny => scan_legs v t j route_cost 0 n init
-  | PConcrete i => if (i <? n)%nat then fst (scan_leg v t i j route_cost init) else init
-  | PLast => let i := (Nat.max n 1 - 1)%nat in if (i <? n)%nat then fst (scan_leg v t i j route_cost init) else init
+  | PAny => scan_legs est v t j route_cost 0 n init
+  | PConcrete i => if (i <? n)%nat then fst (scan_leg est v t i j route_cost init) else init
+  | PLast => let i := (Nat.max n 1 - 1)%nat in if (i <? n)%nat then fst (scan_leg est v t i j route_cost init) else init
   end.
 
 Inductive eval_result :=
@@ -285,16 +286,24 @@ Inductive eval_result :=
 | EFailure (code : Z) (stopped : bool).
 
 (* eval_job_insertion_in_route for a single job, alternative = plain failure, job not in `unassigned` *)
-Definition eval_single_job (v : vehicle) (shift_start : Z) (closed : bool) (t : list act) (j : single) (pos : position)
-  : eval_result :=
+Definition eval_single_gen (est : list act -> nat -> act -> Z) (rc : Z) (v : vehicle) (shift_start : Z) (closed : bool)
+  (t : list act) (j : single) (pos : position) : eval_result :=
   if negb (eval_route_time (shift_start, v_shift_end v) j) then EFailure 1 true else
   if negb (eval_route_cap v t j) then EFailure 2 true else
-  let rc := cost_estimate_route v t in
-  let r := analyze v closed t j pos rc in
+  let r := analyze est v closed t j pos rc in
   match sc_place r with
   | Some p => ESuccess (sc_index r) p (match sc_cost r with Some c => c | None => 0 end)
   | None => match sc_viol r with Some (code, st) => EFailure code st | None => EFailure (-1) false end
   end.
+
+(* goal = [minimize cost] *)
+Definition eval_single_job (v : vehicle) (shift_start : Z) (closed : bool) (t : list act) (j : single) (pos : position)
+  : eval_result :=
+  eval_single_gen (cost_estimate_activity v) (cost_estimate_route v t) v shift_start closed t j pos.
+(* last layer = minimize distance (route-level estimate 0) *)
+Definition eval_single_job_dist (v : vehicle) (shift_start : Z) (closed : bool) (t : list act) (j : single) (pos : position)
+  : eval_result :=
+  eval_single_gen (leg_estimate dist) 0 v shift_start closed t j pos.
 
 (* tour.insert_at(activity, index + 1) followed by accept_route_state (schedules recomputed) *)
 Definition insert_after (t : list act) (idx : nat) (a : act) : list act := firstn (S idx) t ++ a :: skipn (S idx) t.
